@@ -206,6 +206,8 @@ def install_sim(stub=None, npproxy=None):
     import EoN, EoN.simulation as sim, EoN.auxiliary as aux, EoN.simulation_investigation as si
     stub = stub or RandomStub()
     npproxy = npproxy or NPProxy()
+    from . import gillaw
+    gillaw.REPLAY[0] = None
     for m in (sim, aux, si):
         m.random = stub
     sim.np = npproxy
